@@ -81,7 +81,7 @@ def badTransfer (x : PdModel.Spec.C11.Input) : Region → List Step → String
         else if r.leaderStore == t then "same-store"
         else "store-refuses-leaders"
       let st := match findStore x.stores t with
-        | some s => s!"state={s.state},down={s.downSecs},pause={s.pauseLeader}"
+        | some s => s!"state={s.state},down={s.downSecs},pause={s.pauseLeader},reject-label={s.labels.any (fun kv => x.rejectLeader.contains kv)}"
         | none => "missing"
       s!"to={t} why={why} store={st} origin-leader={if x.region.leaderStore == t then 1 else 0}"
   | r, s :: rest => badTransfer x (applyStep r s) rest
@@ -95,7 +95,7 @@ def monitorOp (d : Desc) (impl : String) : List String :=
     | some r =>
       let x : PdModel.Spec.C11.Input :=
         { conf := d.opts.conf, stores := d.stores, region := r, rejectLeader := d.opts.rejectLeader,
-          forced := desc == "scatter-region" || desc == "grant-leader" }
+          forced := desc == "grant-leader" }
       let after := applySteps r steps
       (if PdModel.Spec.C11.checkCounts x steps then [] else
         [s!"sig=C11.role-counts-changed desc={desc} voters={r.voters.length}->{after.voters.length} learners={r.learners.length}->{after.learners.length}"]) ++
@@ -105,7 +105,7 @@ def monitorOp (d : Desc) (impl : String) : List String :=
       (if PdModel.Spec.C11.transfersOK x r steps then [] else
         [s!"sig=C11.bad-leader-transfer desc={desc} {badTransfer x r steps}"])
 
-def scatterStep (d : DState) (rid : Nat) (group : String) (impl : String) : DState × StepOut :=
+def scatterStep (d : DState) (rid : Nat) (group : String) (dry : Bool) (impl : String) : DState × StepOut :=
   match d.desc.region rid with
   | none => (d, { model := "no-region" })
   | some r =>
@@ -114,6 +114,8 @@ def scatterStep (d : DState) (rid : Nat) (group : String) (impl : String) : DSta
     let (pre, res) := match impl.splitOn " | " with
       | [a, b] => (a, b)
       | _ => ("", impl)
+    -- the monitor judges the implementation's operator whatever the model makes of the call
+    let fails := monitorOp d.desc res
     let toks := words pre
     let field (k : String) : String := (toks.filterMap (fun t => let (a, b) := kv t; if a == k then some b else none)).headD ""
     let storeOrder := natList (field "stores")
@@ -127,7 +129,7 @@ def scatterStep (d : DState) (rid : Nat) (group : String) (impl : String) : DSta
     let guardStr := if r.peers.isEmpty then "-" else ";".intercalate (r.peers.map (fun p =>
       s!"{p.store}:{plus ((sortNat (stores.map (·.id))).filter (guardFn p.store))}"))
     let head := s!"stores={field "stores"} guard={guardStr}"
-    if !isPerm storeOrder (stores.map (·.id)) then (d, { model := "bad-store-order" }) else
+    if !isPerm storeOrder (stores.map (·.id)) then (d, { model := "bad-store-order", fails := fails }) else
     -- pre-checks
     let pre? : Option String :=
       if d.desc.rules then
@@ -135,7 +137,7 @@ def scatterStep (d : DState) (rid : Nat) (group : String) (impl : String) : DSta
         else if r.leaderPeer.isNone then some "err:no-leader" else none
       else precheck o r
     match pre? with
-    | some e => (d, { model := s!"{head} | {e}" })
+    | some e => (d, { model := s!"{head} | {e}", fails := fails })
     | none =>
       let (ordS, spS) := match (field "order").splitOn "/" with
         | [a, b] => (natList a, natList b)
@@ -144,11 +146,11 @@ def scatterStep (d : DState) (rid : Nat) (group : String) (impl : String) : DSta
       let ordPeers := r.peers.filter (isOrdinaryPeer stores)
       let spPeers := r.peers.filter (fun p => !(isOrdinaryPeer stores p))
       if !(isPerm ordS (ordPeers.map (·.store)) && isPerm spS (spPeers.map (·.store))) then
-        (d, { model := s!"{head} bad-peer-order" })
+        (d, { model := s!"{head} bad-peer-order", fails := fails })
       else
         let ordered := storeOrder.filterMap (findStore stores)
         let (tp1, _) := scatterGroup repaired o ordered r group d.state.ordinary false guardFn (ordS.filterMap r.storePeer) ([], [])
-        if !isPerm lorder (tp1.map (·.1)) then (d, { model := s!"{head} bad-leader-order expected-perm-of={plus (tp1.map (·.1))}" })
+        if !isPerm lorder (tp1.map (·.1)) then (d, { model := s!"{head} bad-leader-order expected-perm-of={plus (tp1.map (·.1))}", fails := fails })
         else
           let built := (parseOp res).isSome
           let mk (pick : Nat) : Choices :=
@@ -175,7 +177,7 @@ def scatterStep (d : DState) (rid : Nat) (group : String) (impl : String) : DSta
             | none, none => s!"{head} {orders} | none"
             | none, some _ => s!"{head} {orders} | none-expected {want}"
             | some _, none => s!"{head} {orders} | none"   -- unreachable: built = false
-          ({ d with state := st' }, { model := model, fails := monitorOp d.desc res })
+          ({ d with state := if dry then d.state else st' }, { model := model, fails := fails })
 
 def step (d : DState) (opLine : String) (impl : String) : DState × StepOut :=
   let ws := words opLine
@@ -184,7 +186,15 @@ def step (d : DState) (opLine : String) (impl : String) : DState × StepOut :=
   | ["counters"] => (d, { model := renderCounters d.state })
   | ["flow", _, _, _] => (d, { model := "ok" })     -- flow fed to the hot-region schedulers (no model)
   | ["sflow", _, _, _] => (d, { model := "ok" })
-  | "scatter" :: rid :: group :: _ => scatterStep d (natArg rid) (dash group) impl
+  | "scatter" :: rid :: group :: rest => scatterStep d (natArg rid) (dash group) (rest.contains "dry=1") impl
+  | ["put", group, leader, sts] =>
+    -- RegionScatterer.Put: an earlier decision of the group
+    let ids := natList sts
+    if impl.startsWith "err:[" then (d, { model := impl })   -- the rule set was refused: nothing ran
+    else if ids.any (fun i => (findStore d.desc.stores i).isNone) then (d, { model := "unknown-store" })
+    else if ids.any (fun i => match findStore d.desc.stores i with | some s => !(ordinaryEngine s) | none => false) then
+      (d, { model := "special-store" })
+    else ({ d with state := putAll d.desc.stores d.state ids (natArg leader) (dash group) }, { model := "ok" })
   | "sched" :: _ =>
     -- scheduler operators: no model, every operator is judged by the monitor
     let ops := impl.splitOn " ;; "
